@@ -346,6 +346,46 @@ pub fn run(run: &mut Run) {
         });
     }
     spawn_release_leg(run, "release-configuration leg (same sweep, optimised build)");
+    if thorough {
+        // additional monitors (not the deciding step): AddressSanitizer build of the release
+        // leg and a Miri replay of a small universe
+        spawn_leg_exe(run, "AddressSanitizer leg (release build with -Zsanitizer=address, quick sweep)", "OWLMC_ASAN", "quick",
+            &[("ASAN_OPTIONS", "detect_leaks=0:abort_on_error=1"), ("OWLMC_BUDGET_S", "600")], "release + AddressSanitizer");
+        miri_leg(run);
+    }
+}
+
+fn miri_leg(run: &mut Run) {
+    let Ok(dir) = std::env::var("OWLMC_SRC") else {
+        run.notes.push("Miri leg: OWLMC_SRC unset; skipped".into());
+        return;
+    };
+    let t0 = std::time::Instant::now();
+    let out = std::process::Command::new("timeout")
+        .args(["1500", "cargo", "+nightly", "miri", "run", "--offline", "--", "mini"])
+        .current_dir(&dir)
+        .env("MIRIFLAGS", "-Zmiri-disable-isolation")
+        .output();
+    let Ok(out) = out else {
+        run.notes.push("Miri leg: cannot run cargo +nightly miri; skipped".into());
+        return;
+    };
+    let stdout = String::from_utf8_lossy(&out.stdout).to_string();
+    let stderr = String::from_utf8_lossy(&out.stderr).to_string();
+    let wall = t0.elapsed().as_secs_f64();
+    if let Some(l) = stdout.lines().find(|l| l.starts_with("MINI-RESULT")) {
+        let viol = !l.ends_with("violations=0");
+        run.universes.push(json!({"universe": "Miri replay (mini universe: table lookups of 4 squares, M2 slice, REACH(1) slice, special positions, APPEND)", "result": l, "wall_s": wall.round()}));
+        eprintln!("[C19] Miri replay: {} {:.0}s", l, wall);
+        if viol {
+            run.total.violate(json!({"kind": "section", "universe": "miri"}), format!("Miri replay reports violations: {}", stdout.lines().filter(|l| l.starts_with("MINI violation")).take(3).collect::<Vec<_>>().join(" | ")));
+        }
+    } else if stderr.contains("Undefined Behavior") {
+        let ub: Vec<&str> = stderr.lines().filter(|l| l.contains("Undefined Behavior") || l.contains("-->")).take(4).collect();
+        run.total.violate(json!({"kind": "section", "universe": "miri"}), format!("Miri reports undefined behaviour in the mini replay: {}", ub.join(" | ")));
+    } else {
+        run.notes.push(format!("Miri leg did not complete (status {:?}, {:.0}s); skipped - not a verdict", out.status, wall));
+    }
 }
 
 pub fn leg(run: &mut Run) {
@@ -385,5 +425,77 @@ pub fn replay(case: &Value, ctx: &mut Ctx) {
             }
             replay_pos(case, ctx, &check_pos)
         }
+    }
+}
+
+/// A small single-threaded replay for interpreters / sanitizers (Miri, ASan): the sweep of
+/// `check_pos` over M2 (both kings only) restricted to a few king squares, REACH(1) from three
+/// seeds, one high-mobility position, plus the table-index lookups of four squares.
+pub fn mini() -> u8 {
+    crate::engine::install_panic_hook();
+    let mut ctx = Ctx::new();
+    ctx.vcap = 100;
+    let mut n = 0u64;
+    // tables: a corner, an edge, a centre square
+    for s in [0usize, 7, 27, 60] {
+        for rook in [true, false] {
+            let dirs: &[(i32, i32)] = if rook { &ORTH } else { &DIAG };
+            let mut rays = Vec::new();
+            for &(df, dr) in dirs {
+                let (mut x, mut y) = (file_of(s) + df, rank_of(s) + dr);
+                while on(x, y) {
+                    rays.push(sq(x, y));
+                    x += df;
+                    y += dr;
+                }
+            }
+            let lim = (1u64 << rays.len()).min(256);
+            for x in 0..lim {
+                let mut occ = owlchess::Bitboard::EMPTY;
+                for (i, t) in rays.iter().enumerate() {
+                    // spread the low bits of x over the ray squares
+                    if x >> (i % 8) & 1 != 0 {
+                        occ.set(oc(*t));
+                    }
+                }
+                let _ = if rook { hk::rook(oc(s), occ) } else { hk::bishop(oc(s), occ) };
+                n += 1;
+            }
+        }
+    }
+    let mut ps: Vec<Pos> = Vec::new();
+    for (wk, bk) in [(4usize, 60usize), (0, 63), (27, 45)] {
+        for stm in 0..2u8 {
+            let mut p = Pos::empty();
+            p.stm = stm;
+            p.b[wk] = K;
+            p.b[bk] = K | BLACK;
+            ps.push(p);
+        }
+    }
+    for s in crate::universe::seeds().iter().take(3) {
+        ps.push(*s);
+        for m in s.legal().into_iter().take(6) {
+            ps.push(s.apply(m));
+        }
+    }
+    ps.push(text::read_fen(MAXMOB_FENS[2]).unwrap());
+    ps.push(text::read_fen("r3k2r/1P4P1/8/8/8/8/1p4p1/R3K2R w KQkq - 0 1").unwrap());
+    ps.push(text::read_fen("4k3/8/8/3pP3/8/8/8/4K3 w - d6 0 1").unwrap());
+    for p in &ps {
+        if let Some(b) = board_of(p) {
+            check_pos(&mut ctx, p, &b);
+            append_until_full(&mut ctx, p);
+            n += 1;
+        }
+    }
+    for v in &ctx.viol {
+        println!("MINI violation: {} :: {}", case_key(&v.case), v.msg);
+    }
+    println!("MINI-RESULT cases={} states={} transitions={} violations={}", n, ctx.states, ctx.transitions, ctx.nviol);
+    if ctx.nviol > 0 {
+        1
+    } else {
+        0
     }
 }
